@@ -30,6 +30,19 @@ Theorem C10_first_kind_refuted : exists a s s', Permutation s s' /\ run KFirst a
 Proof. exact first_kind_refuted. Qed.
 Print Assumptions C10_first_kind_refuted.
 
+(* 2b. short-circuiting all()/any() over a set: the result is arrangement-independent (1.), but
+       the elements on which the body was evaluated are a prefix of the iteration order -- with a
+       side-effecting body they are observable and do depend on the arrangement, unless every
+       element passes.  (The inventory marks such sites `!effects`; they need an audit entry.) *)
+Theorem C10_short_circuit_trace_refuted : exists p s s', Permutation s s' /\ ~ Permutation (all_trace p s) (all_trace p s').
+Proof. exact all_trace_refuted. Qed.
+Print Assumptions C10_short_circuit_trace_refuted.
+
+Theorem C10_short_circuit_trace_is_prefix_and_total_when_all_hold : forall p s,
+  (exists rest, s = all_trace p s ++ rest) /\ (forallb p s = true -> all_trace p s = s).
+Proof. intros p s. split; [apply all_trace_prefix|apply all_trace_total]. Qed.
+Print Assumptions C10_short_circuit_trace_is_prefix_and_total_when_all_hold.
+
 (* 3. loops over a set whose body commutes *)
 Theorem C10_commuting_loop_perm_invariant : forall (A : Type) (f : A -> N -> A),
   (forall a x y, f (f a x) y = f (f a y) x) ->
@@ -147,18 +160,36 @@ Theorem C10_name_only_key_refuted : exists f h x, answer_after name_only_key f h
 Proof. exact name_only_key_refuted. Qed.
 Print Assumptions C10_name_only_key_refuted.
 
+(* 8b'. the two-way memo of stacked_scopes._memoized_invert (computing inv x = y also records
+        y -> x): history-independent when inv is an involution on the memoised objects, and an
+        earlier call changes a later answer otherwise.  pyanalyze's invert() is an involution only
+        up to logical equivalence; the memo is per constraint object and constraint objects are not
+        shared between programs (Det/StateAudit.v), so the dependence stays inside one check, whose
+        call sequence is a function of the source. *)
+Theorem C10_two_way_memo_history_independent : forall inv, (forall z, inv (inv z) = z) ->
+  forall h1 h2 x, two_way_answer inv h1 x = two_way_answer inv h2 x.
+Proof. exact two_way_memo_history_independent. Qed.
+Print Assumptions C10_two_way_memo_history_independent.
+
+Theorem C10_two_way_memo_needs_involution : forall inv x,
+  inv (inv x) <> x -> inv x <> x -> two_way_answer inv [x] (inv x) <> two_way_answer inv [] (inv x).
+Proof. exact two_way_memo_needs_involution. Qed.
+Print Assumptions C10_two_way_memo_needs_involution.
+
 (* 8c. state that outlives one check, regenerated from the seven files: every module- or
        class-level mutable object that is stored through is audited, the only process-global
-       cache is `_empty_constrained.resolution_cache`, and every cache lookup/store of the
-       seven files uses exactly the pinned key expression *)
+       cache is `_empty_constrained.resolution_cache`, whose key -- analysed field by field, not as
+       text -- takes varname, node and state over from the lookup context unchanged; every other
+       cache lookup/store of the seven files uses exactly the pinned key expression *)
 Theorem C10_global_state_classified :
   forallb state_classified state_items = true /\ state_audit_live state_items = true /\
-  cache_keys = pinned_cache_keys /\
+  cache_keys = pinned_cache_keys /\ resolution_key_ok resolution_key_fields = true /\
   map st_name (filter (fun s => match lookup_state s state_audit with Some (SProcessCache _) => true | _ => false end) state_items)
   = ["_empty_constrained"%string].
 Proof.
   destruct all_state_items_classified as [H1 H2]. split; [exact H1|]. split; [exact H2|].
-  split; [apply keys_eqb_eq; exact cache_keys_are_pinned|exact process_global_caches_are_exactly].
+  split; [apply keys_eqb_eq; exact cache_keys_are_pinned|].
+  split; [exact resolution_cache_key_keeps_what_determines_the_result|exact process_global_caches_are_exactly].
 Qed.
 Print Assumptions C10_global_state_classified.
 
